@@ -111,6 +111,21 @@ HSetHeader(send) ==
                  /\ Emit("HSetHeaderRet", nhdr + 1, IF ok THEN RNil ELSE RMisuse, 0, <<>>, <<>>)
   /\ UNCHANGED <<cpc, spc, rb, reply, gone, tlrs, outcome, decoded, hdrOut, trlOut, ntrl, ncancel>>
 
+\* the same with EMPTY metadata (SendHeader(nil): "flush the headers"): nothing
+\* is added, but SendHeader still marks the headers as sent
+HSetHeaderE(send) ==
+  /\ spc = "handler" /\ bud > 0 /\ decoded # "calling"
+  /\ bud' = bud - 1
+  \* (grpc.SetHeader returns nil for empty metadata without looking at the stream)
+  /\ LET ok == ~hdrsSent \/ ~send IN
+       /\ hdrsSent' = (hdrsSent \/ (ok /\ send))
+       /\ IF send
+            THEN Ev_HSendHeaderAtomic(0, ok) /\ Viol(Chk_HSendHeaderAtomic(0, ok))
+                 /\ Emit("HSendHeaderRet", 0, IF ok THEN RNil ELSE RMisuse, 0, <<>>, <<>>)
+            ELSE Ev_HSetHeaderRet(0, ok) /\ Viol(Chk_HSetHeaderRet(0, ok))
+                 /\ Emit("HSetHeaderRet", 0, IF ok THEN RNil ELSE RMisuse, 0, <<>>, <<>>)
+  /\ UNCHANGED <<cpc, spc, rb, reply, gone, hdrs, tlrs, outcome, decoded, hdrOut, trlOut, nhdr, ntrl, ncancel>>
+
 HSetTrailer ==
   /\ spc = "handler" /\ bud > 0 /\ ntrl < MaxTrl /\ decoded # "calling"
   /\ bud' = bud - 1 /\ ntrl' = ntrl + 1
@@ -202,7 +217,7 @@ Terminated ==
   /\ UNCHANGED allvars
 
 Next ==
-  \/ CStart \/ SrvStart \/ HDecodeCall \/ HDecodeRet \/ HSetHeader(TRUE) \/ HSetHeader(FALSE) \/ HSetTrailer
+  \/ CStart \/ SrvStart \/ HDecodeCall \/ HDecodeRet \/ HSetHeader(TRUE) \/ HSetHeader(FALSE) \/ HSetHeaderE(TRUE) \/ HSetHeaderE(FALSE) \/ HSetTrailer
   \/ \E o \in Outcomes : HReturnDo(o)
   \/ SrvReply \/ CliRtReply \/ CliRtCancelled \/ CliStat \/ BodyRead \/ CliWait
   \/ \E w \in CancelKinds : Cancel(w)
